@@ -402,12 +402,28 @@ def ribTake (peers : List PeerEntry) (s : RibIt) : Outcome (Option (RibItem × R
           .ok (some ((fam, re.peerIdx, peer, table.pfx, re.attrs), ⟨s.rest, cur', s.fam⟩))
     | _ => .panic
 
+/-- `RibEntryIterator::next` (after the repair of F34: a table without
+entries is passed over): `loop { load the next record unless a table is
+current; table = current_table.take().unwrap(); if it has entries, break }`,
+then the second half.  Every turn of the loop after the first reads a record
+header (at least 12 octets), so `rest.length + 2` turns suffice; `fuel`
+exhausted = `.panic` (unreachable with that fuel). -/
+def ribNextF (peers : List PeerEntry) : Nat → RibIt → Outcome (Option (RibItem × RibIt))
+  | 0, _ => .panic
+  | f + 1, s =>
+    match ribLoad s with
+    | .ok none => .ok none
+    | .ok (some s') =>
+      match s'.cur with
+      | none => .panic
+      | some table =>
+        if table.entries.isEmpty then ribNextF peers f ⟨s'.rest, none, s'.fam⟩
+        else ribTake peers s'
+    | .err => .err
+    | .panic => .panic
+
 def ribNext (peers : List PeerEntry) (s : RibIt) : Outcome (Option (RibItem × RibIt)) :=
-  match ribLoad s with
-  | .ok none => .ok none
-  | .ok (some s') => ribTake peers s'
-  | .err => .err
-  | .panic => .panic
+  ribNextF peers (s.rest.length + 2) s
 
 /-- mirrors src/mrt.rs:444 `MrtFile::rib_entries` driven to exhaustion -/
 def ribEntries (bs : Bytes) : Outcome (List RibItem) :=
